@@ -20,6 +20,9 @@ func init() {
 
 func runTTree(c *load.Ctx, r *report.RuleResult) {
 	e := newTableEnv(c)
+	// three candidates x five outcomes x every iteration order of the live set
+	e.cfg.MaxPaths = 200000
+	e.cfg.TotalFuel = 400000000
 	feedLeaves := c.Func(pkgValidator, "Tree.FeedLeaves")
 	treeT := namedType(c, pkgValidator, "Tree")
 	litT := namedType(c, pkgValidator, "literalValidator")
@@ -74,8 +77,14 @@ func runTTree(c *load.Ctx, r *report.RuleResult) {
 		return nil, false
 	}
 	_ = valIface
-	for n := 1; n <= 3; n++ {
-		n := n
+	type scenario struct {
+		n      int
+		shared bool // the candidates are alternatives of one value: they share one parent
+	}
+	scenarios := []scenario{{1, false}, {2, false}, {3, false}, {2, true}, {3, true}}
+	for _, sc := range scenarios {
+		n := sc.n
+		shared := sc.shared
 		var trees []*pe.Ptr
 		outs := pe.ExploreFn(e.cfg, func(in *pe.Interp) pe.Value {
 			// the tree: n leaves l0..; whether a leaf has a parent is decided by its outcome atom, so
@@ -83,12 +92,19 @@ func runTTree(c *load.Ctx, r *report.RuleResult) {
 			t := in.NewStruct(treeT, "tree")
 			trees = append(trees, t)
 			leaves := &pe.MapV{}
+			var common pe.Value
+			if shared {
+				common = mkValidator(in, "P", pe.NilV{})
+			}
 			for i := 0; i < n; i++ {
 				tag := fmt.Sprintf("l%d", i)
 				var parent pe.Value = pe.NilV{}
 				// the first leaf is a root validator (no parent), the others have one
 				if i > 0 {
 					parent = mkValidator(in, tag+".parent", pe.NilV{})
+				}
+				if shared {
+					parent = common
 				}
 				leaves.Keys = append(leaves.Keys, int64(i))
 				leaves.Vals = append(leaves.Vals, mkValidator(in, tag, parent))
@@ -98,6 +114,7 @@ func runTTree(c *load.Ctx, r *report.RuleResult) {
 			return in.Call(feedLeaves, []pe.Value{t, pe.NewSym("lex", feedLeaves.Params[1].Type())})
 		})
 		okSeen := map[string]bool{}
+		badSeen := map[string]bool{}
 		for i, o := range outs {
 			val := o.ChoiceMap()
 			var pat []string
@@ -113,6 +130,15 @@ func runTTree(c *load.Ctx, r *report.RuleResult) {
 				pat = append(pat, oc)
 			}
 			key := fmt.Sprintf("tree|leaves=%d|%s", n, strings.Join(pat, ","))
+			if shared {
+				// alternatives are interchangeable: key by the multiset of outcomes
+				norm := make([]string, len(pat))
+				for i, p := range pat {
+					norm[i] = strings.TrimSuffix(strings.TrimSuffix(p, "-root"), "-parent")
+				}
+				sort.Strings(norm)
+				key = fmt.Sprintf("tree|alternatives=%d|%s", n, strings.Join(norm, ","))
+			}
 			if o.Undecided != "" {
 				r.Unk(key, pos, o.Undecided)
 				continue
@@ -165,6 +191,7 @@ func runTTree(c *load.Ctx, r *report.RuleResult) {
 			}
 			// expected live set afterwards
 			var want []string
+			parentBack := false
 			for k := 0; k < n; k++ {
 				tag := fmt.Sprintf("l%d", k)
 				switch pat[k] {
@@ -172,7 +199,14 @@ func runTTree(c *load.Ctx, r *report.RuleResult) {
 					want = append(want, tag)
 				case "done-root", "done-parent":
 					// a completed leaf steps back to its parent; a root validator is removed
-					if k > 0 {
+					if shared {
+						// alternatives of one value: their common parent resumes once, however many of
+						// them accepted the value
+						if !parentBack {
+							parentBack = true
+							want = append(want, "P")
+						}
+					} else if k > 0 {
 						want = append(want, tag+".parent")
 					}
 				case "children":
@@ -190,7 +224,10 @@ func runTTree(c *load.Ctx, r *report.RuleResult) {
 			sort.Strings(want)
 			sort.Strings(got)
 			if strings.Join(want, ",") != strings.Join(got, ",") {
-				r.Bad(key, pos, fmt.Sprintf("live candidates afterwards: %v; expected %v", got, want))
+				if !badSeen[key] {
+					badSeen[key] = true
+					r.Bad(key, pos, fmt.Sprintf("live candidates afterwards: %v; expected %v (a parent that is live twice is fed every following lexeme twice: its item counter and owed keys go wrong)", got, want))
+				}
 				continue
 			}
 			done, _ := o.Ret.(bool)
@@ -198,7 +235,7 @@ func runTTree(c *load.Ctx, r *report.RuleResult) {
 				r.Bad(key, pos, fmt.Sprintf("reports completion=%v with %d candidate(s) left", done, len(want)))
 				continue
 			}
-			if !okSeen[key] { // the same outcome pattern is reached once per map iteration order
+			if !okSeen[key] && !badSeen[key] { // the same outcome pattern is reached once per map iteration order
 				okSeen[key] = true
 				r.OK(key, pos, fmt.Sprintf("live: %v", got))
 			}
